@@ -158,6 +158,13 @@ func focusedCase(g *Gen) (string, Req) {
 		}
 		r.URL = "http://" + hostVariant(g, Pick(g, vals)) + path
 		r.Source = "http://example.org/"
+		if g.Chance(1, 3) {
+			// hostname requests: real IP addresses are exempt from $denyallow, names that merely LOOK like addresses
+			// (only hex digits, dots and colons) are not
+			mods = mods[:1]
+			pat = "*"
+			r = Req{Kind: "host", Hostname: Pick(g, []string{"cafe.de", "ccc.de", "dead.beef", "1e100.ac", "bad.cafe", "abc.de", "1.2.3.4", "::1", "2001:db8::1", "1.2.3", "fe80::", "a.b.c.d", "example.org", Pick(g, vals)})}
+		}
 	case 3: // third-party
 		mods = append(mods, Pick(g, []string{"third-party", "~third-party", "first-party", "~first-party"}))
 		r.Source = Pick(g, []string{"", "http://" + h + "/", "http://" + hostVariant(g, h) + "/x", "https://" + Pick(g, hostPool) + "/"})
